@@ -1,8 +1,82 @@
 """C12 — A store call that fails changes nothing observable."""
+import os, shutil
 from ._store import run_store
+from ..common import hx, RUNDIR
+from ..gen import ev_tok, fl_tok, AUTHORS
+from ..storecheck import HistGen, strip_now
 
 THEOREMS = ['failed_store_noop', 'failed_store_observables', 'failed_store_keeps_offsets', 'store_refines_abstract', 'history_refines_abstract', 'every_history_refines_abstract', 'abstract_failed_store']
 
 
+def failing_under_fault(c, runner):
+    """"or any other" error: the store call is made while every LMDB reader slot is taken (126 open read transactions), so
+    whichever internal lookup it starts fails part-way - after the duplicate / deleted checks, after the pre-removal scan of a
+    replaceable event, after k-1 effective tags of a deletion request. If the call returns an error, the whole probe battery
+    (lookups, markers, address queries, statistics) read once the readers are gone equals the battery before the call
+    (oracle: the property text; no model involved)."""
+    rng = c.rng
+    Q = c.tier == 'quick'
+    base = os.path.join(RUNDIR, 'C12f-%d' % os.getpid())
+    os.makedirs(base, exist_ok=True)
+    try:
+        lines, meta = [], []
+        for k in range(16 if Q else 200):
+            g = HistGen(rng, 'C12')
+            pk, other = rng.sample(AUTHORS, 2)
+            kind = rng.choice([30023, 10002, 0])
+            d = rng.choice([b'x', b'p' * 200]) if kind == 30023 else b''
+            tg = [[b'd', d]] if kind == 30023 else []
+            old = g.new_event(kind=kind, pk=pk, t=1000, tags=tg, content=b'holder')
+            note = g.new_event(kind=1, pk=pk, t=1000, tags=[[b't', b'a']], content=b'note')
+            note2 = g.new_event(kind=1, pk=pk, t=1001, tags=[[b't', b'a']], content=b'note2')
+            foreign = g.new_event(kind=1, pk=other, t=1000, tags=[], content=b'foreign')
+            pre = [old, note, note2, foreign]
+            shape = ['newer', 'older', 'deletion', 'deletion-addr', 'regular', 'duplicate'][k % 6]
+            if shape == 'newer':
+                x = g.new_event(kind=kind, pk=pk, t=2000, tags=tg, content=b'newer version')
+            elif shape == 'older':
+                x = g.new_event(kind=kind, pk=pk, t=500, tags=tg, content=b'older version')
+            elif shape == 'deletion':
+                x = g.new_event(kind=5, pk=pk, t=3000, content=b'', tags=[[b'e', (b'\x77' * 32).hex().encode()], [b'e', note['id'].hex().encode()],
+                                                                          [b'e', note2['id'].hex().encode()]])
+            elif shape == 'deletion-addr':
+                x = g.new_event(kind=5, pk=pk, t=3000, content=b'', tags=[[b'a', str(kind).encode() + b':' + pk.hex().encode() + b':' + d],
+                                                                          [b'e', note['id'].hex().encode()]])
+            elif shape == 'regular':
+                x = g.new_event(kind=1, pk=pk, t=1500, tags=[[b't', b'a'], [b'p', other.hex().encode()]], content=b'regular')
+            else:
+                x = note
+            ids = [e['id'] for e in pre] + [x['id'], b'\x77' * 32]
+            bat = []
+            for i in ids:
+                bat += ['HAS ' + hx(i), 'GID ' + hx(i), 'DEL ' + hx(i)]
+            bat += ['NAD %d %s %s' % (kind, hx(pk), hx(d)), 'STA', 'FND _ _ _ _ - - - 1 0 0 m', 'FND _ %s _ _ - - - 1 0 0 m' % hx(pk),
+                    'FND %s 1 0 0 m' % fl_tok(dict(ids=[], authors=[], kinds=[], tags=[[b't', b'a']], since=None, until=None, limit=None))]
+            nheld = rng.choice([126, 126, 200, 125])
+            start = len(lines)
+            lines += ['NEW %s -' % os.path.join(base, 'f%d' % k)] + ['STO ' + ev_tok(e) for e in pre] + bat + ['RDF %d STO %s' % (nheld, ev_tok(x))] + bat + ['RMD']
+            meta.append((start, len(pre), len(bat), shape))
+        out = [strip_now(x) for x in c.worker.run(lines)]
+        c.evaluations += len(meta)
+        for start, npre, nb, shape in meta:
+            b0 = start + 1 + npre
+            before, rq, after = out[b0:b0 + nb], out[b0 + nb], out[b0 + nb + 1:b0 + 2 * nb + 1]
+            rep = lines[start:b0 + 2 * nb + 1]
+            c.count('readers_full_store:%s:%s' % (shape, ' '.join(rq.split(' ')[1:2])[:12]))
+            if not rq.startswith('held='):
+                c.violation('oracle', 'store under exhausted reader slots did not complete: %s' % rq[:60], rep)
+                continue
+            if rq.split(' ')[1] == 'ok':
+                continue        # it succeeded: nothing is claimed here
+            norm = lambda l, x: ' '.join(y for y in x.split(' ') if not y.startswith('end=')) if l == 'STA' else x
+            diff = [(l[:16], x[:40], y[:40]) for l, x, y in zip(lines[b0:b0 + nb], before, after) if norm(l, x) != norm(l, y)]
+            if diff:
+                c.violation('oracle', 'a store that failed (%s, all reader slots taken, %s) changed %s: %s -> %s' % (rq.split(' ')[1], shape, diff[0][0], diff[0][1], diff[0][2]), rep)
+            else:
+                c.nontriv(('readers-full', shape, rq[:24]))
+    finally:
+        shutil.rmtree(base, ignore_errors=True)
+
+
 def run():
-    run_store('C12', THEOREMS, """Focus: stores that fail: duplicates, deleted, replaced (after the pre-removal scan), deletion requests refused at their k-th tag after k-1 effective ones, requests naming an address with a 480-byte identifier (LMDB key-size error after earlier tags took effect); oracle (model-free): the whole battery before the failing call equals the battery after it (every lookup, marker, address query, extra table and all index entry counts).""", {'reply', 'noop'}, relevant={'STO'})
+    run_store('C12', THEOREMS, """Focus: stores that fail: duplicates, deleted, replaced (after the pre-removal scan), deletion requests refused at their k-th tag after k-1 effective ones, requests naming an address with a 480-byte identifier (LMDB key-size error after earlier tags took effect); oracle (model-free): the whole battery before the failing call equals the battery after it (every lookup, marker, address query, extra table and all index entry counts).""", {'reply', 'noop'}, relevant={'STO'}, extra=failing_under_fault)
